@@ -5,6 +5,7 @@ from pyformlang.cfg.epsilon import Epsilon
 from pyformlang.cfg.cfg import NotParsableException
 from pyformlang.cfg.parse_tree import ParseTree
 from pyformlang.cfg.set_queue import SetQueue
+from pyformlang.cfg.terminal import Terminal
 from pyformlang.cfg.utils import to_terminal
 from pyformlang.cfg.utils_cfg import get_productions_d
 
@@ -227,7 +228,10 @@ class LLOneParser:
             if current == "$":
                 # Everything was derived but some input is left
                 raise NotParsableException
-            if current.value == word[-1]:
+            if isinstance(current.value, Terminal) and \
+                    current.value == word[-1]:
+                # Only a terminal is matched against the input (a variable
+                # can be called "$" like the end marker)
                 word.pop()
             else:
                 rule_applied = list(parsing_table.get(current.value, {})
